@@ -121,8 +121,35 @@ const resolveTimeout = 300500 * time.Millisecond
 
 type integ struct {
 	Kind string `json:"-"`
+	Recv string `json:"recv"`
 	Name string `json:"name"` // kind/index-within-kind, as notify.Integration reports it
 	SR   bool   `json:"sr"`
+}
+
+// routeCfg is a child route of the scenarios (all routes group by [g]); Sel names a matcher of
+// the library mirrored in spec/AMObs.tla (Sel).
+type routeCfg struct {
+	Sel    string
+	Cont   bool
+	Recv   string
+	T      timers
+	Mute   []tiv
+	Active []tiv
+}
+
+var selMatcher = map[string]string{
+	"ALL": `alertname=~".+"`, "G1": `g="1"`, "G2": `g="2"`, "CRIT": `sev="crit"`, "AX": `a="x"`, "NOA": `a=""`,
+}
+
+// rec is the route as the observer specification takes it.
+func (r routeCfg) rec(root bool) map[string]any {
+	rk := "{}"
+	if !root {
+		rk = "{}/{" + selMatcher[r.Sel] + "}"
+	}
+	return map[string]any{"rk": rk, "sel": r.Sel, "cont": r.Cont, "recv": r.Recv,
+		"gw": int64(r.T.gw / time.Millisecond), "gi": int64(r.T.gi / time.Millisecond), "ri": int64(r.T.ri / time.Millisecond),
+		"mute": nonNil(r.Mute), "active": nonNil(r.Active)}
 }
 
 // tiv is a named time interval: minutes [From, To) of every day (UTC)
@@ -135,12 +162,41 @@ type tiv struct {
 func hhmm(ms int64) string { m := ms / 60000; return fmt.Sprintf("%02d:%02d", m/60, m%60) }
 
 type scenCfg struct {
-	Mute    []tiv // mute_time_intervals of the route
-	Active  []tiv // active_time_intervals of the route
-	T       timers
-	Integs  []integ // integrations of receiver r1 (initial configuration)
-	Alt     []integ // integrations after a reload that changes the receiver (nil: reloads keep it)
+	T       timers     // the root route's timers
+	Routes  []routeCfg // child routes, in order
+	Integs  []integ    // integrations of receiver r1 (initial configuration)
+	Alt     []integ    // integrations of r1 after a reload that changes the receiver (nil: reloads keep it)
+	R2      []integ    // integrations of receiver r2 (never changed)
 	Inhibit bool
+}
+
+// event is the data of the "cfg" event: the configuration as the observer specification takes it.
+func (c scenCfg) event(windows []inst.Window, wait, maxwait int64) map[string]any {
+	routes := []map[string]any{}
+	for _, r := range c.Routes {
+		routes = append(routes, r.rec(false))
+	}
+	if windows == nil {
+		windows = []inst.Window{}
+	}
+	return map[string]any{
+		"root": routeCfg{Sel: "ALL", Recv: "r1", T: c.T}.rec(true), "routes": routes,
+		"integs": c.allIntegs(c.Integs), "inhibit": c.Inhibit, "rt": int64(resolveTimeout / time.Millisecond),
+		"windows": windows, "wait": wait, "maxwait": maxwait,
+	}
+}
+
+func (c scenCfg) allIntegs(r1 []integ) []integ {
+	return append(append([]integ{}, r1...), c.R2...)
+}
+
+// maxT is the largest timer of every kind over all routes.
+func (c scenCfg) maxT() timers {
+	m := c.T
+	for _, r := range c.Routes {
+		m.gw, m.gi, m.ri = max(m.gw, r.T.gw), max(m.gi, r.T.gi), max(m.ri, r.T.ri)
+	}
+	return m
 }
 
 func mkIntegs(kinds []string, srs []bool) []integ {
@@ -150,7 +206,7 @@ func mkIntegs(kinds []string, srs []bool) []integ {
 		n := 0
 		for i, k := range kinds {
 			if k == kind {
-				out = append(out, integ{Kind: kind, Name: fmt.Sprintf("%s/%d", kind, n), SR: srs[i]})
+				out = append(out, integ{Kind: kind, Recv: "r1", Name: fmt.Sprintf("%s/%d", kind, n), SR: srs[i]})
 				n++
 			}
 		}
@@ -158,79 +214,75 @@ func mkIntegs(kinds []string, srs []bool) []integ {
 	return out
 }
 
-func (c scenCfg) child() bool { return len(c.Mute)+len(c.Active) > 0 }
-
-// gkPrefix is the route key part of the group keys of this configuration.
-func (c scenCfg) gkPrefix() string {
-	if c.child() {
-		return `{}/{alertname=~".+"}`
-	}
-	return "{}"
-}
-
 func (c scenCfg) yaml(integs []integ) string {
 	var sb strings.Builder
 	fmt.Fprintf(&sb, "global:\n  resolve_timeout: %dms\n  smtp_smarthost: 'localhost:25'\n  smtp_from: 'am@example.org'\n  smtp_require_tls: false\n", resolveTimeout/time.Millisecond)
-	if len(c.Mute)+len(c.Active) > 0 {
+	var ivs []tiv
+	for _, r := range c.Routes {
+		ivs = append(append(ivs, r.Mute...), r.Active...)
+	}
+	if len(ivs) > 0 {
 		sb.WriteString("time_intervals:\n")
-		for _, iv := range append(append([]tiv{}, c.Mute...), c.Active...) {
+		seen := map[string]bool{}
+		for _, iv := range ivs {
+			if seen[iv.Name] {
+				continue
+			}
+			seen[iv.Name] = true
 			fmt.Fprintf(&sb, "- name: %s\n  time_intervals:\n  - times:\n    - start_time: '%s'\n      end_time: '%s'\n", iv.Name, hhmm(iv.From), hhmm(iv.To))
 		}
 	}
 	fmt.Fprintf(&sb, "route:\n  receiver: r1\n  group_by: [g]\n  group_wait: %s\n  group_interval: %s\n  repeat_interval: %s\n", c.T.gw, c.T.gi, c.T.ri)
-	if c.child() {
-		// the root route may not carry time intervals: a catch-all child route does
-		sb.WriteString("  routes:\n  - matchers: ['alertname=~\".+\"']\n")
+	if len(c.Routes) > 0 {
+		sb.WriteString("  routes:\n")
 	}
-	sub := &sb
-	if c.child() {
-		sub = &strings.Builder{}
-	}
-	defer func() {}()
-	if len(c.Mute) > 0 {
-		sub.WriteString("  mute_time_intervals: [")
-		for i, iv := range c.Mute {
-			if i > 0 {
-				sub.WriteString(", ")
-			}
-			sub.WriteString(iv.Name)
+	names := func(ivs []tiv) string {
+		var ns []string
+		for _, iv := range ivs {
+			ns = append(ns, iv.Name)
 		}
-		sub.WriteString("]\n")
+		return strings.Join(ns, ", ")
 	}
-	if len(c.Active) > 0 {
-		sub.WriteString("  active_time_intervals: [")
-		for i, iv := range c.Active {
-			if i > 0 {
-				sub.WriteString(", ")
-			}
-			sub.WriteString(iv.Name)
+	for _, r := range c.Routes {
+		// the root route may not carry time intervals: child routes do
+		fmt.Fprintf(&sb, "  - matchers: ['%s']\n    receiver: %s\n    continue: %v\n", selMatcher[r.Sel], r.Recv, r.Cont)
+		if r.T != c.T {
+			fmt.Fprintf(&sb, "    group_wait: %s\n    group_interval: %s\n    repeat_interval: %s\n", r.T.gw, r.T.gi, r.T.ri)
 		}
-		sub.WriteString("]\n")
-	}
-	if c.child() {
-		// indent the child's options
-		for _, ln := range strings.Split(strings.TrimRight(sub.String(), "\n"), "\n") {
-			sb.WriteString("  " + ln + "\n")
+		if len(r.Mute) > 0 {
+			fmt.Fprintf(&sb, "    mute_time_intervals: [%s]\n", names(r.Mute))
+		}
+		if len(r.Active) > 0 {
+			fmt.Fprintf(&sb, "    active_time_intervals: [%s]\n", names(r.Active))
 		}
 	}
 	if c.Inhibit {
 		sb.WriteString("inhibit_rules:\n- source_matchers: ['sev=\"crit\"']\n  target_matchers: ['sev=\"warn\"']\n  equal: [g]\n")
 	}
-	sb.WriteString("receivers:\n- name: r1\n")
-	for _, kind := range []string{"webhook", "email"} {
-		first := true
-		for i, it := range integs {
-			if it.Kind != kind {
-				continue
-			}
-			if first {
-				fmt.Fprintf(&sb, "  %s_configs:\n", kind)
-				first = false
-			}
-			if kind == "webhook" {
-				fmt.Fprintf(&sb, "  - url: http://127.0.0.1:1/%d\n    send_resolved: %v\n", i, it.SR)
-			} else {
-				fmt.Fprintf(&sb, "  - to: 'oncall%d@example.org'\n    send_resolved: %v\n", i, it.SR)
+	sb.WriteString("receivers:\n")
+	for _, rc := range []struct {
+		name string
+		ins  []integ
+	}{{"r1", integs}, {"r2", c.R2}} {
+		if rc.name == "r2" && len(rc.ins) == 0 {
+			continue
+		}
+		fmt.Fprintf(&sb, "- name: %s\n", rc.name)
+		for _, kind := range []string{"webhook", "email"} {
+			first := true
+			for i, it := range rc.ins {
+				if it.Kind != kind {
+					continue
+				}
+				if first {
+					fmt.Fprintf(&sb, "  %s_configs:\n", kind)
+					first = false
+				}
+				if kind == "webhook" {
+					fmt.Fprintf(&sb, "  - url: http://127.0.0.1:1/%s/%d\n    send_resolved: %v\n", rc.name, i, it.SR)
+				} else {
+					fmt.Fprintf(&sb, "  - to: 'oncall%d@%s.example.org'\n    send_resolved: %v\n", i, rc.name, it.SR)
+				}
 			}
 		}
 	}
@@ -265,7 +317,36 @@ func genScenario(rng *rand.Rand) (scenCfg, []envEvent, []inst.Window, time.Durat
 	default:
 		cfg.Integs = mkIntegs([]string{"webhook", "webhook"}, []bool{true, rng.Intn(3) == 0})
 	}
-	horizon := 3*cfg.T.ri + 4*cfg.T.gi + 2*time.Minute
+	flap := rng.Intn(4) == 0 // a resolve / re-fire pair around a flush tick with a slow receiver
+	tOf := func() timers {
+		if flap || rng.Intn(2) == 0 {
+			return cfg.T
+		}
+		return timerSets[rng.Intn(len(timerSets))]
+	}
+	routeKind := rng.Intn(14)
+	switch routeKind {
+	case 4: // a continuing route to a second receiver in front of a catch-all
+		cfg.Routes = []routeCfg{{Sel: "G1", Cont: true, Recv: "r2", T: tOf()}, {Sel: "ALL", Recv: "r1", T: cfg.T}}
+	case 5: // first match wins: critical alerts to r2, the rest stays with the root
+		cfg.Routes = []routeCfg{{Sel: "CRIT", Recv: "r2", T: tOf()}}
+	case 6: // overlapping selectors, only the first continues
+		cfg.Routes = []routeCfg{{Sel: "AX", Cont: true, Recv: "r2", T: tOf()}, {Sel: "G1", Recv: "r1", T: tOf()}, {Sel: "ALL", Recv: "r2", T: cfg.T}}
+	case 7: // a selector on a missing label; two routes to the same receiver
+		cfg.Routes = []routeCfg{{Sel: "NOA", Cont: true, Recv: "r2", T: cfg.T}, {Sel: "G2", Recv: "r2", T: tOf()}}
+	case 8: // everything continues: every alert in several groups
+		cfg.Routes = []routeCfg{{Sel: "G1", Cont: true, Recv: "r1", T: tOf()}, {Sel: "AX", Cont: true, Recv: "r2", T: tOf()}, {Sel: "ALL", Cont: true, Recv: "r2", T: cfg.T}}
+	}
+	for _, r := range cfg.Routes {
+		if r.Recv == "r2" && cfg.R2 == nil {
+			cfg.R2 = []integ{{Kind: "webhook", Recv: "r2", Name: "webhook/0", SR: rng.Intn(2) == 0}}
+			if rng.Intn(3) == 0 {
+				cfg.R2 = append(cfg.R2, integ{Kind: "email", Recv: "r2", Name: "email/0", SR: true})
+			}
+		}
+	}
+	mt := cfg.maxT()
+	horizon := 3*mt.ri + 4*mt.gi + 2*time.Minute
 	if horizon > 5*time.Hour {
 		horizon = 5 * time.Hour
 	}
@@ -279,21 +360,28 @@ func genScenario(rng *rand.Rand) (scenCfg, []envEvent, []inst.Window, time.Durat
 		}
 		return tiv{Name: name, From: from * 60000, To: to * 60000}
 	}
-	switch rng.Intn(8) {
+	// time intervals live on child routes (the root may not carry any)
+	all := routeCfg{Sel: "ALL", Recv: "r1", T: cfg.T}
+	switch routeKind {
 	case 0:
-		cfg.Mute = []tiv{mkiv("m1")}
+		all.Mute = []tiv{mkiv("m1")}
+		cfg.Routes = []routeCfg{all}
 	case 1:
-		cfg.Mute = []tiv{mkiv("m1"), mkiv("m2")}
+		all.Mute = []tiv{mkiv("m1"), mkiv("m2")}
+		cfg.Routes = []routeCfg{all}
 	case 2:
-		cfg.Active = []tiv{{Name: "a1", From: 0, To: (1 + rng.Int63n(max(hmin, 1))) * 60000}}
+		all.Active = []tiv{{Name: "a1", From: 0, To: (1 + rng.Int63n(max(hmin, 1))) * 60000}}
+		cfg.Routes = []routeCfg{all}
 	case 3:
-		cfg.Mute = []tiv{mkiv("m1")}
-		cfg.Active = []tiv{mkiv("a1"), {Name: "a2", From: 0, To: 2 * 60000}}
+		all.Mute = []tiv{mkiv("m1")}
+		all.Active = []tiv{mkiv("a1"), {Name: "a2", From: 0, To: 2 * 60000}}
+		cfg.Routes = []routeCfg{all}
+	case 4, 7: // one of several routes is muted for a while
+		cfg.Routes[0].Mute = []tiv{mkiv("m1")}
 	}
 	n := 6 + rng.Intn(14)
 	var evs []envEvent
 	nsil := 0
-	flap := rng.Intn(4) == 0 // a resolve / re-fire pair around a flush tick with a slow receiver
 	for k := 0; k < n; k++ {
 		// every environment event has its own millisecond signature: never at the same
 		// instant as another one, as a timer derived from another one, or as an alert end
@@ -341,17 +429,18 @@ func genScenario(rng *rand.Rand) (scenCfg, []envEvent, []inst.Window, time.Durat
 		evs = append(evs, e)
 	}
 	ws := []inst.Window{}
-	names := []string{}
-	for _, it := range append(append([]integ{}, cfg.Integs...), cfg.Alt...) {
-		names = append(names, it.Name)
+	names := []integ{}
+	for _, it := range append(append(append([]integ{}, cfg.Integs...), cfg.Alt...), cfg.R2...) {
+		names = append(names, it)
 	}
 	for i := 0; i < rng.Intn(3); i++ {
 		from := time.Duration(rng.Int63n(int64(horizon/time.Second)))*time.Second + 750*time.Millisecond
 		dur := time.Duration(1+rng.Intn(int(cfg.T.gi/time.Second)*2+30)) * time.Second
 		kind := []string{"rec", "rec", "unrec", "hang", "slow"}[rng.Intn(5)]
-		w := inst.Window{Recv: "r1", Integ: names[rng.Intn(len(names))], From: int64(from / time.Millisecond), To: int64((from + dur) / time.Millisecond), Kind: kind}
+		wi := names[rng.Intn(len(names))]
+		w := inst.Window{Recv: wi.Recv, Integ: wi.Name, From: int64(from / time.Millisecond), To: int64((from + dur) / time.Millisecond), Kind: kind}
 		ws = append(ws, w)
-		if len(cfg.Integs) > 1 && rng.Intn(2) == 0 {
+		if wi.Recv == "r1" && len(cfg.Integs) > 1 && rng.Intn(2) == 0 {
 			// a sibling in trouble at the same time: one fails for good while the other is retrying
 			other := cfg.Integs[0].Name
 			if other == w.Integ {
@@ -373,9 +462,9 @@ func genScenario(rng *rand.Rand) (scenCfg, []envEvent, []inst.Window, time.Durat
 		after := time.Duration(100+rng.Intn(400)) * time.Millisecond
 		evs = append(evs, envEvent{at: tick - before, kind: "post", a: "A1", mode: "resolve"})
 		evs = append(evs, envEvent{at: tick + after, kind: "post", a: "A1", mode: "fire"})
-		for _, it := range cfg.Integs {
+		for _, it := range cfg.allIntegs(cfg.Integs) {
 			if it.SR {
-				ws = append(ws, inst.Window{Recv: "r1", Integ: it.Name, From: int64((tick - time.Second) / time.Millisecond), To: int64((tick + time.Second) / time.Millisecond), Kind: "slow"})
+				ws = append(ws, inst.Window{Recv: it.Recv, Integ: it.Name, From: int64((tick - time.Second) / time.Millisecond), To: int64((tick + time.Second) / time.Millisecond), Kind: "slow"})
 			}
 		}
 		// keep other events on A1 and reloads away from the flap
@@ -478,11 +567,7 @@ func TestScenarios(t *testing.T) {
 			if err != nil {
 				t.Fatal(err)
 			}
-			lg.Add(inst.Event{Ev: "cfg", Data: map[string]any{
-				"gw": int64(cfg.T.gw / time.Millisecond), "gi": int64(cfg.T.gi / time.Millisecond), "ri": int64(cfg.T.ri / time.Millisecond),
-				"integs": cfg.Integs, "inhibit": cfg.Inhibit, "rt": int64(resolveTimeout / time.Millisecond), "windows": windows, "wait": 0, "maxwait": 0,
-				"mute": nonNil(cfg.Mute), "active": nonNil(cfg.Active), "gkp": cfg.gkPrefix(),
-			}})
+			lg.Add(inst.Event{Ev: "cfg", Data: cfg.event(windows, 0, 0)})
 			cur := cfg.Integs
 			if err := in.Reload(cfg.yaml(cur)); err != nil {
 				t.Fatalf("reload: %v\n%s", err, cfg.yaml(cur))
@@ -536,7 +621,7 @@ func TestScenarios(t *testing.T) {
 							cur = cfg.Integs
 						}
 					}
-					lg.Add(inst.Event{Ev: "reloading", Data: map[string]any{"integs": cur}})
+					lg.Add(inst.Event{Ev: "reloading", Data: map[string]any{"integs": cfg.allIntegs(cur)}})
 					reloading.Store(true)
 					if err := in.Reload(cfg.yaml(cur)); err != nil {
 						t.Fatalf("reload: %v", err)
@@ -568,10 +653,10 @@ func TestScenarios(t *testing.T) {
 			in.Stop()
 			synctest.Wait()
 			// nothing may happen after the shutdown: watch for a while, then end whatever survived
-			time.Sleep(2*cfg.T.gi + 15*time.Second)
+			time.Sleep(2*cfg.maxT().gi + 15*time.Second)
 			synctest.Wait()
 			killed.Store(true)
-			time.Sleep(2*cfg.T.gi + 15*time.Second)
+			time.Sleep(2*cfg.maxT().gi + 15*time.Second)
 			synctest.Wait()
 			for _, e := range lg.Ev {
 				e.Inst = fmt.Sprint(run)
@@ -623,7 +708,10 @@ func ms(t time.Time) int64 {
 // apiViews records what GET /api/v2/alerts and GET /api/v2/alerts/groups report.
 func apiViews(in *inst.Instance, lg *inst.Log) {
 	var alerts []struct {
-		Labels map[string]string `json:"labels"`
+		Labels    map[string]string `json:"labels"`
+		Receivers []struct {
+			Name string `json:"name"`
+		} `json:"receivers"`
 		Status struct {
 			State       string   `json:"state"`
 			SilencedBy  []string `json:"silencedBy"`
@@ -634,13 +722,20 @@ func apiViews(in *inst.Instance, lg *inst.Log) {
 		out := []map[string]any{}
 		for _, a := range alerts {
 			n := nameOfLabels[canonLabels(a.Labels)]
-			out = append(out, map[string]any{"l": n, "state": a.Status.State, "nsil": len(a.Status.SilencedBy), "ninh": len(a.Status.InhibitedBy)})
+			recvs := []string{}
+			for _, r := range a.Receivers {
+				recvs = append(recvs, r.Name)
+			}
+			out = append(out, map[string]any{"l": n, "state": a.Status.State, "nsil": len(a.Status.SilencedBy), "ninh": len(a.Status.InhibitedBy), "recvs": recvs})
 		}
 		sort.Slice(out, func(i, j int) bool { return out[i]["l"].(string) < out[j]["l"].(string) })
 		lg.Add(inst.Event{Ev: "api.alerts", Data: map[string]any{"alerts": out}})
 	}
 	var groups []struct {
-		Labels map[string]string `json:"labels"`
+		Labels   map[string]string `json:"labels"`
+		Receiver struct {
+			Name string `json:"name"`
+		} `json:"receiver"`
 		Alerts []struct {
 			Labels map[string]string `json:"labels"`
 			Status struct {
@@ -665,9 +760,9 @@ func apiViews(in *inst.Instance, lg *inst.Log) {
 				mb = append(mb, m)
 			}
 			sort.Strings(mb)
-			out = append(out, map[string]any{"g": g.Labels["g"], "alerts": names, "mutedby": mb})
+			out = append(out, map[string]any{"g": g.Labels["g"], "recv": g.Receiver.Name, "alerts": names, "mutedby": mb})
 		}
-		sort.Slice(out, func(i, j int) bool { return out[i]["g"].(string) < out[j]["g"].(string) })
+		sort.SliceStable(out, func(i, j int) bool { return out[i]["g"].(string) < out[j]["g"].(string) })
 		lg.Add(inst.Event{Ev: "api.groups", Data: map[string]any{"groups": out}})
 	}
 }
